@@ -739,9 +739,9 @@ bool XMLReader::location()
             std::string l_path = path.str(tag_t::LOCATION);
             /* Extract ID attribute. */
             auto l_id = getAttributeStr("id");
+            read();  // advance first: returning with the reader still on this element makes the caller loop forever
             if (is_blank(l_id))
                 throw TypeException{"Every location must have a unique id attribute value"};
-            read();
             /* Get name of the location. */
             std::string l_name = name();
             /* Read the invariant. */
